@@ -27,6 +27,11 @@ C("C20", "proof",
   "Trusted: Coq kernel, extraction, driver, harness. Modelled rather than verified: rule.py filter. 'line-local rule' is read as case / whitespace group rules.",
   "Coq proof (unbounded) of the filter + extracted-model differential + CLI metamorphic runs", "5/C20")
 
+C("C14", "proof",
+  "The report projections of one file (rows, stable sort by line, total and per-severity counts, JUnit filter, JSON / quality-report list, summary verdict, per-file status) and main's OR over files are modelled in Coq; proved for all violation sets and severity assignments: the table is a stably sorted permutation of the JSON list, total = number of rows, per-severity counts add up, JUnit = exactly the error-type rows, file status <-> an error-type row is listed, summary verdict = not status, process exit 0 <-> every file processed and no error-type row (exit_zero_iff); summary_by_name_refuted records the defect repaired in 13df738. The extracted model predicts, from the JSON file of real CLI runs (batches with rejected files, user-defined error / warning severities at rule, group and global level, gated and -ap), the vsg table, counts, JUnit text, quality report, syntastic lines, summary line and routing, and the exit code, which are compared with the real artefacts.",
+  "Trusted: Coq kernel, extraction, driver, the harness parsers of the six artefacts. The JSON file is the carrier of the violation set (its agreement with rule.violations is part of C13's observed runs). Modelled rather than verified: rule_list report functions, report/*.py, junit.py.",
+  "Coq proof (unbounded) of the report projections + extracted-model prediction of CLI artefacts", "5/C14")
+
 NA_REASON = "check not built yet in this round (see DESIGN.md section 10 build order); nothing is claimed for it"
 ALL = ["C%02d" % i for i in range(1, 21)]
 m = dict(version=1, setup_cmd="./bin/setup",
